@@ -1,6 +1,308 @@
 import PrimitivModel.Model.Registry
-namespace Primitiv.Registry
+import PrimitivModel.Spec.Registry
+import PrimitivModel.Lemmas.Registry
+/-
+C16 — Model registry: unique names, acyclic hierarchy, exact enumeration.
 
-theorem placeholder : Reg.empty.size = 0 := rfl
+Every theorem is about the executable model Model/Registry.lean (the
+definitions the driver `drv_registry` runs), for all heaps, names, paths and
+histories; vocabulary (`Reg.inv`, `ResolvesP`, `ResolvesM`, `Reg.Reach`,
+`NameUsed`, `Op`, `Reg.run`) is in Spec/Registry.lean, helper lemmas in
+Lemmas/Registry.lean.
+-/
+namespace Primitiv.Registry
+open Std
+
+/-! ### a concrete registry used by the examples: a diamond
+
+models 0..3, parameters 0 (valid), 1 (valid), 2 (invalid);
+`0 -a-> 1`, `0 -b-> 2`, `1 -s-> 3`, `2 -s-> 3`, parameter 0 is `w` of model 3,
+parameter 1 is `""` (the empty name) of model 0. -/
+def nA : Name := [97]
+def nB : Name := [98]
+def nS : Name := [115]
+def nW : Name := [119]
+
+def diamondOps : List Op :=
+  [.newModel, .newModel, .newModel, .newModel, .newParam true, .newParam true, .newParam false,
+   .addSub 0 nA 1, .addSub 0 nB 2, .addSub 1 nS 3, .addSub 2 nS 3, .addParam 3 nW 0, .addParam 0 [] 1,
+   -- rejected: cycle of length 3, self, duplicate name, duplicate object
+   .addSub 3 nA 0, .addSub 1 nA 1, .addParam 0 nA 0, .addSub 0 nS 1]
+
+def diamond : Reg := Reg.run diamondOps
+
+/-! ### the invariant holds after every history -/
+
+/-- `Reg.inv` (containers mutually consistent, names unique across parameters
+and submodels, submodels live, hierarchy acyclic) holds initially and is
+preserved by every operation, accepted or rejected: it holds after every
+history. -/
+theorem Reg.inv_history (ops : List Op) : (Reg.run ops).inv :=
+  Reg.inv_foldl Reg.inv_empty ops
+
+/-- single steps, for callers that have an invariant state at hand -/
+theorem Reg.inv_addParam_step {r r' : Reg} (hi : r.inv) {m : MId} (hm : m < r.size) {n : Name} {p : PId}
+    (h : r.addParam m n p = .ok r') : r'.inv := Reg.inv_addParam hi hm h
+
+theorem Reg.inv_addSub_step {r r' : Reg} (hi : r.inv) {m : MId} (hm : m < r.size) {n : Name} {c : MId} (hc : c < r.size)
+    (h : r.addSub m n c = .ok r') : r'.inv := Reg.inv_addSub hi hm hc h
+
+example : diamond.inv := Reg.inv_history _
+example : diamond.size = 4 := by decide
+-- an accepted add that changes the registry
+example : (match diamond.addSub 1 nB 2 with | .ok r' => decide (r' ≠ diamond) | _ => false) = true := by decide
+
+/-- A model never contains itself, directly or transitively. -/
+theorem Reg.never_contains_itself {r : Reg} (hi : r.inv) (m : MId) : ¬ r.Reach m m :=
+  Reg.not_reach_self hi m
+
+/-! ### termination: the fuel is enough -/
+
+/-- Under the invariant the traversals return within the fuel `number of
+models`: termination is a consequence of acyclicity (a descending chain of
+models cannot be longer than the heap), not an assumption. -/
+theorem Reg.fuel_suffices {r : Reg} (hi : r.inv) {m : MId} (hm : m < r.size) (t : MId) :
+    (∃ b, Reg.hasSub r t r.size m = .ok b) ∧ (∃ l, r.allParameters m = .ok l) :=
+  ⟨Reg.hasSub_total hi t hm, Reg.getAll_total hi hm⟩
+
+example : Reg.hasSub diamond 3 diamond.size 0 = .ok true := by decide
+/-- with less fuel than the depth the model reports the unbounded recursion -/
+example : Reg.hasSub diamond 3 1 0 = .crash := by decide
+
+/-- No operation of any history crashes (the only crash of `add` would be an
+unbounded `has_submodel`). -/
+theorem Reg.add_never_crashes (ops : List Op) (m : MId) (n : Name) :
+    (∀ p, (Reg.run ops).addParam m n p ≠ .crash) ∧
+    (∀ c, c < (Reg.run ops).size → (Reg.run ops).addSub m n c ≠ .crash) :=
+  ⟨fun p => Reg.addParam_ne_crash _ m n p, fun _ hc => Reg.addSub_ne_crash (Reg.inv_history ops) n hc⟩
+
+/-! ### re-adding is a no-op, every other duplicate is rejected, rejection changes nothing -/
+
+/-- Adding the identical object under the identical name again returns
+normally and leaves the registry as it is. -/
+theorem Reg.readd_noop {r : Reg} (m : MId) (n : Name) :
+    (∀ p, ResolvesP r m [n] p → r.addParam m n p = .ok r) ∧
+    (∀ c, ResolvesM r m [n] c → r.addSub m n c = .ok r) := by
+  refine ⟨fun p h => ?_, fun c h => ?_⟩
+  · have h := resolvesP_single.1 h
+    rcases Reg.addParam_cases r m n p with ⟨_, h'⟩ | ⟨hne, _⟩ | ⟨hne, _⟩
+    · exact h'
+    · exact absurd h hne
+    · exact absurd h hne
+  · have h := resolvesM_single.1 h
+    rcases Reg.addSub_cases r m n c with ⟨_, h'⟩ | ⟨hne, _⟩ | ⟨hne, _⟩ | ⟨hne, _⟩
+    · exact h'
+    · exact absurd h hne
+    · exact absurd h hne
+    · exact absurd h hne
+
+/-- … in particular right after the add that registered it. -/
+theorem Reg.readd_after_add {r r' : Reg} (hi : r.inv) {m : MId} (hm : m < r.size) (n : Name) :
+    (∀ p, r.addParam m n p = .ok r' → r'.addParam m n p = .ok r') ∧
+    (∀ c, r.addSub m n c = .ok r' → r'.addSub m n c = .ok r') :=
+  ⟨fun p h => (Reg.readd_noop m n).1 p (resolvesP_single.2 (Reg.addParam_ok_find hi hm h)),
+   fun c h => (Reg.readd_noop m n).2 c (resolvesM_single.2 (Reg.addSub_ok_find hi hm h))⟩
+
+example : diamond.addSub 0 nA 1 = .ok diamond := by decide
+example : diamond.addParam 3 nW 0 = .ok diamond := by decide
+
+/-- Every rejected add leaves the registry unchanged (the error outcome of the
+model carries the state the call leaves behind). -/
+theorem Reg.reject_unchanged {r r' : Reg} (m : MId) (n : Name) :
+    (∀ p, r.addParam m n p = .error r' → r' = r) ∧ (∀ c, r.addSub m n c = .error r' → r' = r) :=
+  ⟨fun _ h => Reg.addParam_error h, fun _ h => Reg.addSub_error h⟩
+
+example : diamond.addSub 3 nA 0 = .error diamond := by decide
+
+/-- Which parameter adds are rejected: exactly those that are not a re-add and
+whose name is taken (by a parameter or a submodel) or whose object is already
+registered in this model under another name. -/
+theorem Reg.add_param_decision {r : Reg} (hi : r.inv) (m : MId) (n : Name) (p : PId) :
+    (r.addParam m n p = .error r ↔ ¬ ResolvesP r m [n] p ∧ (NameUsed r m n ∨ ∃ n', ResolvesP r m [n'] p)) ∧
+    ((∃ r', r.addParam m n p = .ok r') ↔ ResolvesP r m [n] p ∨ (¬ NameUsed r m n ∧ ¬ ∃ n', ResolvesP r m [n'] p)) := by
+  have hwf := hi.wf m
+  rw [nameUsed_iff hwf, paramRegistered_iff hwf, resolvesP_single]
+  rcases Reg.addParam_cases r m n p with ⟨h1, h'⟩ | ⟨h1, h2, h'⟩ | ⟨h1, h2, h3, h'⟩ <;> rw [h']
+  · simp [h1]
+  · refine ⟨⟨fun _ => ⟨h1, h2⟩, fun _ => rfl⟩, ⟨fun ⟨_, h⟩ => (by cases h), fun h => ?_⟩⟩
+    rcases h with h | ⟨a, b⟩
+    · exact absurd h h1
+    · rcases h2 with h2 | h2
+      · exact absurd h2 a
+      · exact absurd h2 b
+  · simp [h1, h2, h3]
+
+/-- Which submodel adds are rejected: exactly those that are not a re-add and
+that add the model to itself, add an ancestor (a cycle of any length), reuse a
+name, or add a model already registered in this model. -/
+theorem Reg.add_sub_decision {r : Reg} (hi : r.inv) (m : MId) (n : Name) {c : MId} (hc : c < r.size) :
+    (r.addSub m n c = .error r ↔
+      ¬ ResolvesM r m [n] c ∧ (c = m ∨ r.Reach c m ∨ NameUsed r m n ∨ ∃ n', ResolvesM r m [n'] c)) ∧
+    ((∃ r', r.addSub m n c = .ok r') ↔
+      ResolvesM r m [n] c ∨ (c ≠ m ∧ ¬ r.Reach c m ∧ ¬ NameUsed r m n ∧ ¬ ∃ n', ResolvesM r m [n'] c)) := by
+  have hwf := hi.wf m
+  rw [nameUsed_iff hwf, subRegistered_iff hwf, resolvesM_single]
+  obtain ⟨b, hb⟩ := Reg.hasSub_total hi m hc
+  have hreach : r.Reach c m ↔ b = true := by
+    cases b
+    · simp [Reg.hasSub_false hb]
+    · simp [Reg.hasSub_true hb]
+  rcases Reg.addSub_cases r m n c with ⟨h1, h'⟩ | ⟨_, _, hcr, _⟩ | ⟨h1, h2, h'⟩ | ⟨h1, h2, h3, h4, h5, h'⟩
+  · rw [h']; simp [h1]
+  · rw [hb] at hcr; cases hcr
+  · rw [h']
+    have : c = m ∨ r.Reach c m ∨ n ∈ (r.get m).nameSet ∨ c ∈ (r.get m).subSet := by
+      rcases h2 with h2 | h2 | h2 | ⟨_, h2⟩
+      · exact Or.inl h2
+      · rw [hb] at h2; cases h2
+      · rw [hb] at h2; cases h2; exact Or.inr (Or.inl (hreach.2 rfl))
+      · exact Or.inr (Or.inr h2)
+    refine ⟨⟨fun _ => ⟨h1, this⟩, fun _ => rfl⟩, ⟨fun ⟨_, h⟩ => (by cases h), fun h => ?_⟩⟩
+    rcases h with h | ⟨a, b, c', d⟩
+    · exact absurd h h1
+    · rcases this with h | h | h | h
+      · exact absurd h a
+      · exact absurd h b
+      · exact absurd h c'
+      · exact absurd h d
+  · rw [h']
+    have h3' : ¬ r.Reach c m := Reg.hasSub_false h3
+    simp [h1, h2, h3', h4, h5]
+
+-- rejected: cycle 3 → 0 (0 is an ancestor of 3), self, name taken, object already a submodel
+example : diamond.Reach 0 3 := Reg.hasSub_true (f := diamond.size) (by decide)
+example : diamond.addSub 3 nA 0 = .error diamond ∧ diamond.addSub 1 nA 1 = .error diamond ∧
+    diamond.addParam 0 nA 0 = .error diamond ∧ diamond.addSub 0 nS 1 = .error diamond := by decide
+
+/-! ### exact enumeration -/
+
+/-- `get_all_parameters()` (and `get_trainable_parameters()`, which is the same
+function) returns, as a map with strictly increasing keys, exactly the
+(path, parameter) pairs that resolve from the model — a parameter reachable
+along two paths (a diamond) is listed under each of them. -/
+theorem Reg.all_parameters_exact {r : Reg} (hi : r.inv) {m : MId} (hm : m < r.size) :
+    ∃ l, r.allParameters m = .ok l ∧ r.trainableParameters m = .ok l ∧ Sorted l ∧
+      ∀ path p, (path, p) ∈ l ↔ ResolvesP r m path p := by
+  obtain ⟨l, hl⟩ := Reg.getAll_total hi hm
+  exact ⟨l, hl, hl, Reg.getAll_sorted hl, Reg.getAll_spec hi.wf hl⟩
+
+example : diamond.allParameters 0 = .ok [([[]], 1), ([nA, nS, nW], 0), ([nB, nS, nW], 0)] := by decide
+
+/-! ### lookups -/
+
+/-- `get_parameter(names)` returns `p` exactly when the path resolves to `p`,
+and raises an Error (never crashes) for every other list — wrong, partial,
+overlong, and the empty one. -/
+theorem Reg.lookup_iff (r : Reg) (m : MId) (path : Path) :
+    (∀ p, r.getParameter m path = .ok p ↔ ResolvesP r m path p) ∧
+    (r.getParameter m path = .error ↔ ¬ ∃ p, ResolvesP r m path p) ∧
+    (∀ c, r.getSubmodel m path = .ok c ↔ ResolvesM r m path c) ∧
+    (r.getSubmodel m path = .error ↔ ¬ ∃ c, ResolvesM r m path c) := by
+  refine ⟨Reg.getParameter_ok_iff r m path, ?_, Reg.getSubmodel_ok_iff r m path, ?_⟩
+  · rcases h : r.getParameter m path with p | _ | _
+    · constructor
+      · intro h'; cases h'
+      · intro hne; exact absurd ⟨p, (Reg.getParameter_ok_iff r m path p).1 h⟩ hne
+    · simp only [true_iff]
+      rintro ⟨p, hp⟩
+      rw [(Reg.getParameter_ok_iff r m path p).2 hp] at h
+      cases h
+    · exact absurd h (Reg.getParameter_ne_crash r m path)
+  · rcases h : r.getSubmodel m path with c | _ | _
+    · constructor
+      · intro h'; cases h'
+      · intro hne; exact absurd ⟨c, (Reg.getSubmodel_ok_iff r m path c).1 h⟩ hne
+    · simp only [true_iff]
+      rintro ⟨c, hc⟩
+      rw [(Reg.getSubmodel_ok_iff r m path c).2 hc] at h
+      cases h
+    · exact absurd h (Reg.getSubmodel_ne_crash r m path)
+
+/-- the empty path is rejected with an Error -/
+theorem Reg.lookup_empty_path (r : Reg) (m : MId) :
+    r.getParameter m [] = .error ∧ r.getSubmodel m [] = .error :=
+  ⟨Reg.getParameter_nil r m, Reg.getSubmodel_nil r m⟩
+
+/-- `get_parameter` resolves exactly the paths that `get_all_parameters` lists. -/
+theorem Reg.lookup_matches_enumeration {r : Reg} (hi : r.inv) {m : MId} {l : PMap} (h : r.allParameters m = .ok l)
+    (path : Path) (p : PId) : r.getParameter m path = .ok p ↔ (path, p) ∈ l := by
+  rw [Reg.getParameter_ok_iff, Reg.getAll_spec hi.wf h]
+
+example : diamond.getParameter 0 [nB, nS, nW] = .ok 0 ∧ diamond.getSubmodel 0 [nA, nS] = .ok 3 := by decide
+example : diamond.getParameter 0 [nB, nS] = .error ∧ diamond.getParameter 0 [nB, nS, nW, nW] = .error ∧
+    diamond.getSubmodel 0 [nW] = .error ∧ diamond.getParameter 0 [[]] = .ok 1 := by decide
+
+/-! ### Optimizer::add -/
+
+/-- `Optimizer::add(model)`, when it returns normally, has registered exactly
+the parameters reachable through the hierarchy in addition to those registered
+before, each once (also when one is reachable along several paths or was
+registered already). -/
+theorem Reg.optimizer_adds_once {r : Reg} (hi : r.inv) {m : MId} {o o' : Opt} (hn : o.params.Nodup)
+    (h : o.addModel r m = .ok o') :
+    o'.params.Nodup ∧ ∀ q, q ∈ o'.params ↔ q ∈ o.params ∨ ∃ path, ResolvesP r m path q := by
+  unfold Opt.addModel at h
+  split at h
+  · rename_i ps hps
+    obtain ⟨h1, _, h3⟩ := Opt.addList_ok hn h
+    refine ⟨h1, fun q => ?_⟩
+    rw [h3 q]
+    have hspec := Reg.getAll_spec hi.wf hps
+    constructor
+    · rintro (hq | hq)
+      · exact Or.inl hq
+      · obtain ⟨e, he, rfl⟩ := List.mem_map.1 hq
+        exact Or.inr ⟨e.1, (hspec e.1 e.2).1 he⟩
+    · rintro (hq | ⟨path, hq⟩)
+      · exact Or.inl hq
+      · exact Or.inr (List.mem_map.2 ⟨(path, q), (hspec path q).2 hq, rfl⟩)
+  · cases h
+  · cases h
+
+/-- `Optimizer::add(parameter)`: registered once, a repeated add is a no-op,
+and a rejected add (a parameter the optimizer cannot configure) leaves the
+registered set unchanged. -/
+theorem Reg.optimizer_add_param {valid : PId → Bool} {o o' : Opt} (p : PId) (hn : o.params.Nodup) :
+    (o.addParam valid p = .ok o' → o'.params.Nodup ∧ ∀ q, q ∈ o'.params ↔ q ∈ o.params ∨ q = p) ∧
+    (o.addParam valid p = .error o' → o' = o) ∧
+    (p ∈ o.params → o.addParam valid p = .ok o) ∧
+    o.addParam valid p ≠ .crash := by
+  refine ⟨fun h => ?_, Opt.addParam_error, fun h => by simp [Opt.addParam, h], Opt.addParam_ne_crash valid o p⟩
+  obtain ⟨a, _, b⟩ := Opt.addParam_ok hn h
+  exact ⟨a, b⟩
+
+/-- `Optimizer::add(model)` never crashes on a registry built through the API,
+returns normally when the optimizer keeps no statistics or every reachable
+parameter is valid, and otherwise fails only because of an invalid parameter
+below the model. -/
+theorem Reg.optimizer_add_model_outcome {r : Reg} (hi : r.inv) {m : MId} (hm : m < r.size) (o : Opt) :
+    o.addModel r m ≠ .crash ∧
+    ((o.needsStats = false ∨ ∀ path p, ResolvesP r m path p → r.valid p = true) → ∃ o', o.addModel r m = .ok o') ∧
+    (∀ o', o.addModel r m = .error o' → o.needsStats = true ∧ ∃ path p, ResolvesP r m path p ∧ r.valid p = false) := by
+  obtain ⟨l, hl⟩ := Reg.getAll_total hi hm
+  have hspec := Reg.getAll_spec hi.wf hl
+  have hl' : r.trainableParameters m = .ok l := hl
+  refine ⟨?_, fun hv => ?_, fun o' h => ?_⟩
+  · simp only [Opt.addModel, hl']
+    exact Opt.addList_ne_crash _ _ _
+  · simp only [Opt.addModel, hl']
+    apply Opt.addList_all_valid
+    rcases hv with hv | hv
+    · exact Or.inl hv
+    · refine Or.inr (fun p hp => ?_)
+      obtain ⟨e, he, rfl⟩ := List.mem_map.1 hp
+      exact hv e.1 e.2 ((hspec e.1 e.2).1 he)
+  · simp only [Opt.addModel, hl'] at h
+    obtain ⟨a, p, hp, hv⟩ := Opt.addList_error h
+    obtain ⟨e, he, rfl⟩ := List.mem_map.1 hp
+    exact ⟨a, e.1, e.2, (hspec e.1 e.2).1 he, hv⟩
+
+-- the diamond's parameter 0 is reachable along two paths and is registered once;
+-- parameter 1 was registered before and is not registered again
+example : (Opt.addModel diamond { needsStats := true, params := [1] } 0) = .ok { needsStats := true, params := [1, 0] } := by
+  decide
+-- an invalid parameter (2) under an optimizer that keeps statistics: rejected, set unchanged
+example : (Opt.addParam diamond.valid { needsStats := true, params := [1] } 2) = .error { needsStats := true, params := [1] } := by
+  decide
 
 end Primitiv.Registry
